@@ -167,7 +167,7 @@ class Ctx:
         self.rule = ""
         self.harness_errors = []
         self.budget_s = float(os.environ.get("VERIF_BUDGET_S", "0") or 0) or (
-            600 if tier == "quick" else 3000
+            3000 if tier == "quick" else 14400
         )
 
     # -- evaluation -----------------------------------------------------
